@@ -41,7 +41,7 @@ MStarted(j, a, i, t) == Started(j, a, i, t) /\ mfree' = Adj(i, NewAtt(j, a)) /\ 
 MComplete(j, a, i, st, t0, t1) ==
   Complete(j, a, i, st, t0, t1) /\ mfree' = Adj(i, NewAtt(j, a) + Release(j, a, i)) /\ UNCHANGED <<mst, pend>>
 MUnschedule(j, a, t) ==
-  /\ (CancelRunning(j, a, t) \/ Orphan(j, a, t))
+  /\ UnscheduleCall(j, a, t)
   /\ LET i == att[j][a].inst IN mfree' = Adj(i, IF inst[i].st = "active" /\ att[j][a].en = NULLT THEN JCores[j] ELSE 0)
   /\ UNCHANGED <<mst, pend>>
 MActivate(i) == Activate(i) /\ mst' = [mst EXCEPT ![i] = "active"] /\ UNCHANGED <<mfree, pend>>
@@ -59,15 +59,19 @@ MCommit(u)       == Commit(u) /\ Keep
 MInsertGroup(g)  == InsertGroup(g) /\ Keep
 MCancelGroup(g)  == CancelGroup(g) /\ Keep
 MInsertJob(j)    == InsertJob(j) /\ Keep
-MCancelReady(j)  == CancelReady(j) /\ Keep
+MCancelReadySelect(j) == CancelReadySelect(j) /\ Keep
+MCancelReadyCall(j) == CancelReadyCall(j) /\ Keep
+MCancelRunningSelect(j, a) == CancelRunningSelect(j, a) /\ Keep
+MOrphanSelect(j, a) == OrphanSelect(j, a) /\ Keep
 
 MNext ==
   \/ \E u \in Updates : MCreateUpdate(u) \/ MCommit(u)
   \/ \E g \in Groups : MInsertGroup(g) \/ MCancelGroup(g)
-  \/ \E j \in Jobs : MInsertJob(j) \/ MCancelReady(j)
+  \/ \E j \in Jobs : MInsertJob(j) \/ MCancelReadySelect(j) \/ MCancelReadyCall(j)
+  \/ \E j \in Jobs, a \in AttIds : MCancelRunningSelect(j, a) \/ MOrphanSelect(j, a)
   \/ \E j \in Jobs, a \in AttIds, i \in Insts : MSelect(j, a, i) \/ MSchedule(j, a, i)
   \/ \E j \in Jobs, a \in AttIds, i \in Insts, t \in Times : MStarted(j, a, i, t)
-  \/ \E j \in Jobs, a \in AttIds, i \in Insts, st \in {"Success", "Failed"}, t0 \in Times, t1 \in Times : MComplete(j, a, i, st, t0, t1)
+  \/ \E j \in Jobs, a \in AttIds, i \in Insts, st \in {"Success", "Failed", "Error"}, t0 \in Times, t1 \in Times : MComplete(j, a, i, st, t0, t1)
   \/ \E j \in Jobs, a \in AttIds, t \in Times : MUnschedule(j, a, t)
   \/ \E i \in Insts : MActivate(i)
   \/ \E i \in Insts, t \in Times : MDeactivate(i, t) \/ MDeactivateLost(i, t)
